@@ -1,9 +1,13 @@
 (* Proofs/ExprDisplay.v — C19, clause 4 (partial): Display reads back.
-   Fragment [dfrag]: trees over one-letter variables other than e / E, the constant e, the binary
-   operators + - * / % ^ and the postfix !, in which every operand of an operator is an atom, a
-   factorial of an operand, or a binary operation carrying its paren flag (so the text is fully
-   parenthesised below the top operator).  No number occurs (hence none of the juxtaposition
-   shortcuts of Display applies and the result holds for every rendering [fmt] of numbers).
+   Fragment [dfrag]: trees over one-letter variables other than e / E, the four constants, the binary
+   operators + - * / % ^, the postfix ! and the prefix minus, in which
+     - the right operand of an operator is an atom, a factorial, a binary operation carrying its paren flag,
+       or a prefix minus of such a thing;
+     - the left operand is an atom, a factorial or a paren-flagged binary operation — and, for ^, also a
+       prefix minus (Display prints it in parentheses); the same for the operand of ! ;
+     - the tree itself may be any of these or one binary operation without paren flag.
+   So the text is fully parenthesised below the top operator.  No number occurs (hence none of the
+   juxtaposition shortcuts of Display applies and the result holds for every rendering [fmt] of numbers).
    For such a tree e:   reread fmt e = Ok e   — lexer, parser and fold give back the very same tree. *)
 From Coq Require Import ZArith NArith List Bool Lia.
 From SV Require Import Base.Num Base.Outcome Base.Str Model.Expr Proofs.ExprTotal Proofs.ExprFold.
@@ -24,35 +28,53 @@ Section Display.
     end.
   Definition binop_ok (o : oper) : bool :=
     match o with OAdd | OSub | ODiv | OMul | ORem | OCaret => true | _ => false end.
+  Definition is_caret (o : oper) : bool := match o with OCaret => true | _ => false end.
+  Definition is_pre (e : tree) : bool := match e with EPre _ _ => true | _ => false end.
 
-  Fixpoint operand (e : tree) : bool :=
+  (* the position of a sub-tree: plain operand (no leading minus), right operand (a leading minus is
+     fine), or a position where Display puts a leading minus in parentheses (base of ^, operand of !) *)
+  Inductive mode := MOperand | MSigned | MParen.
+
+  Fixpoint ok (m : mode) (e : tree) : bool :=
     match e with
     | EVar v => var_ok v
-    | EConst KE => true
-    | EBin o l r true => binop_ok o && operand l && operand r
-    | EPost OFac v => operand v
+    | EConst _ => true
+    | EBin o l r true => binop_ok o && ok (if is_caret o then MParen else MOperand) l && ok MSigned r
+    | EPost OFac v => ok MParen v
+    | EPre OSub v => match m with MOperand => false | _ => ok MSigned v end
     | _ => false
     end.
   Definition dfrag (e : tree) : bool :=
-    operand e || match e with EBin o l r false => binop_ok o && operand l && operand r | _ => false end.
+    ok MSigned e
+    || match e with
+       | EBin o l r false => binop_ok o && ok (if is_caret o then MParen else MOperand) l && ok MSigned r
+       | _ => false
+       end.
+
+  Lemma ok_weaken m e : ok MOperand e = true -> ok m e = true.
+  Proof. destruct e as [x|v|c|f i|o s|o s|o l r p]; cbn; try discriminate; auto. destruct o; discriminate. Qed.
+  Lemma ok_not_pre m e : ok m e = true -> is_pre e = false -> ok MOperand e = true.
+  Proof. destruct e as [x|v|c|f i|o s|o s|o l r p]; cbn; try discriminate; auto. Qed.
 
   (* ---- text without spaces, and tokens ------------------------------------------------------- *)
   Definition wrapc (p : bool) (s : str) : str := if p then [40%N] ++ s ++ [41%N] else s.
+  Definition wrapt (p : bool) (s : list tok) : list tok := if p then [TLParen] ++ s ++ [TRParen] else s.
   Fixpoint chars (e : tree) : str :=
     match e with
     | EVar v => v
     | EConst c => cnst_str c
-    | EBin o l r p => wrapc p (chars l ++ oper_str o ++ chars r)
-    | EPost o v => chars v ++ oper_str o
+    | EPre o v => oper_str o ++ chars v
+    | EPost o v => wrapc (is_pre v) (chars v) ++ oper_str o
+    | EBin o l r p => wrapc p (wrapc (is_caret o && is_pre l) (chars l) ++ oper_str o ++ chars r)
     | _ => []
     end.
-  Definition wrapt (p : bool) (s : list tok) : list tok := if p then [TLParen] ++ s ++ [TRParen] else s.
   Fixpoint toks (e : tree) : list tok :=
     match e with
     | EVar v => [TVar v]
     | EConst c => [TConst c]
-    | EBin o l r p => wrapt p (toks l ++ [TOp o] ++ toks r)
-    | EPost o v => toks v ++ [TOp o]
+    | EPre o v => TOp o :: toks v
+    | EPost o v => wrapt (is_pre v) (toks v) ++ [TOp o]
+    | EBin o l r p => wrapt p (wrapt (is_caret o && is_pre l) (toks l) ++ [TOp o] ++ toks r)
     | _ => []
     end.
 
@@ -65,42 +87,50 @@ Section Display.
     unfold nsp, c_space. destruct (c =? 32)%N eqn:E; [|reflexivity].
     apply N.eqb_eq in E. subst. discriminate.
   Qed.
-
   Lemma filter_oper o : filter nsp (oper_str o) = oper_str o.
   Proof. destruct o; reflexivity. Qed.
+  Lemma filter_cnst c : filter nsp (cnst_str c) = cnst_str c.
+  Proof. destruct c; reflexivity. Qed.
+  Lemma filter_wrapc p s : filter nsp (wrapc p s) = wrapc p (filter nsp s).
+  Proof. destruct p; cbn [wrapc]; [|reflexivity]. rewrite !filter_app. reflexivity. Qed.
 
-  Lemma operand_not_num e : operand e = true -> match e with ENum _ => False | _ => True end.
+  Definition not_num (e : tree) : Prop := match e with ENum _ => False | _ => True end.
+  Lemma ok_not_num m e : ok m e = true -> not_num e.
   Proof. destruct e; cbn; try discriminate; auto. Qed.
 
-  Lemma display_bin o l r p : operand l = true -> operand r = true ->
-    display fmt (EBin o l r p) = wrap p (display fmt l ++ [32%N] ++ oper_str o ++ [32%N] ++ display fmt r).
+  Lemma display_bin o l r p : not_num l -> not_num r ->
+    display fmt (EBin o l r p) =
+    wrap p (wrapc (is_caret o && is_pre l) (display fmt l) ++ [32%N] ++ oper_str o ++ [32%N] ++ display fmt r).
   Proof.
     intros Hl Hr. cbn [display].
-    destruct o; try reflexivity.
-    - destruct l as [x|v|c|f i|o' s|o' s|o' l1 l2 p']; try reflexivity; try discriminate;
-        destruct r as [y|w|d|g j|o2 t|o2 t|o2 r1 r2 p2]; try reflexivity; discriminate.
-    - destruct l as [x|v|c|f i|o' s|o' s|o' l1 l2 p']; try reflexivity; try discriminate;
-        destruct r as [y|w|d|g j|o2 t|o2 t|o2 r1 r2 p2]; try reflexivity; discriminate.
+    destruct o; destruct l as [x|v|c|f i|o' s|o' s|o' l1 l2 p']; try contradiction;
+      destruct r as [y|w|d|g j|o2 t|o2 t|o2 r1 r2 p2]; try contradiction; reflexivity.
   Qed.
 
-  Lemma filter_display : forall e, operand e = true -> filter nsp (display fmt e) = chars e.
+  Lemma display_post o v : display fmt (EPost o v) = wrapc (is_pre v) (display fmt v) ++ oper_str o.
+  Proof. destruct v; cbn [display is_pre wrapc]; try reflexivity. rewrite <- !app_assoc. reflexivity. Qed.
+
+  Lemma filter_display : forall e m, ok m e = true -> filter nsp (display fmt e) = chars e.
   Proof.
-    induction e as [x|v|c|f i IH|o s IH|o s IH|o l IHl r IHr p]; intros H; try discriminate.
+    induction e as [x|v|c|f i IH|o s IH|o s IH|o l IHl r IHr p]; intros m H; try discriminate.
     - apply filter_var. exact H.
-    - destruct c; try discriminate. reflexivity.
-    - cbn [operand] in H. destruct o; try discriminate. cbn [display chars].
-      rewrite filter_app, (IH H). reflexivity.
-    - cbn [operand] in H. destruct p; [|discriminate].
+    - apply filter_cnst.
+    - cbn [ok] in H. destruct o; try discriminate. destruct m; try discriminate;
+        cbn [display chars]; rewrite filter_app, (IH _ H); reflexivity.
+    - cbn [ok] in H. destruct o; try discriminate.
+      rewrite display_post. cbn [chars]. rewrite filter_app, filter_wrapc, (IH _ H). reflexivity.
+    - cbn [ok] in H. destruct p; [|discriminate].
       apply andb_prop in H as [H Hr]. apply andb_prop in H as [Ho Hl].
-      rewrite (display_bin _ _ _ _ Hl Hr). cbn [wrap chars wrapc].
-      rewrite !filter_app, (IHl Hl), (IHr Hr), filter_oper. reflexivity.
+      rewrite (display_bin _ _ _ _ (ok_not_num _ _ Hl) (ok_not_num _ _ Hr)). cbn [wrap chars wrapc].
+      rewrite !filter_app, filter_wrapc, (IHl _ Hl), (IHr _ Hr), filter_oper. reflexivity.
   Qed.
 
-  Lemma filter_display_top o l r : operand l = true -> operand r = true ->
+  Lemma filter_display_top o l r :
+    ok (if is_caret o then MParen else MOperand) l = true -> ok MSigned r = true ->
     filter nsp (display fmt (EBin o l r false)) = chars (EBin o l r false).
   Proof.
-    intros Hl Hr. rewrite (display_bin _ _ _ _ Hl Hr). cbn [wrap chars wrapc].
-    rewrite !filter_app, (filter_display _ Hl), (filter_display _ Hr), filter_oper. reflexivity.
+    intros Hl Hr. rewrite (display_bin _ _ _ _ (ok_not_num _ _ Hl) (ok_not_num _ _ Hr)). cbn [wrap chars wrapc].
+    rewrite !filter_app, filter_wrapc, (filter_display _ _ Hl), (filter_display _ _ Hr), filter_oper. reflexivity.
   Qed.
 
   (* ---- the lexer on such a text ------------------------------------------------------------------ *)
@@ -154,58 +184,80 @@ Section Display.
     cbn [length app] in Hf. rewrite (Hr f) by lia. reflexivity.
   Qed.
 
+  (* one character that is a token by itself *)
+  Definition char_token (ch : N) : option tok :=
+    if (ch =? 960)%N then Some (TConst KPi) else if (ch =? 964)%N then Some (TConst KTau)
+    else if (ch =? 981)%N then Some (TConst KPhi)
+    else if (ch =? 40)%N then Some TLParen else if (ch =? 41)%N then Some TRParen
+    else match oper_of_char ch with Some o => Some (TOp o) | None => None end.
+
   Lemma lexes_char ch t rest r :
-    is_num_char ch = false -> is_ascii_letter ch = false ->
-    (if (ch =? 40)%N then t = TLParen else if (ch =? 41)%N then t = TRParen
-     else exists o, oper_of_char ch = Some o /\ t = TOp o) ->
+    is_num_char ch = false -> is_ascii_letter ch = false -> char_token ch = Some t ->
     Lexes rest r -> Lexes (ch :: rest) (t :: r).
   Proof.
     intros H1 H2 Ht Hr [|f] Hf; [cbn in Hf; lia|].
-    cbn [lex_loop]. rewrite H1, H2. cbn [length] in Hf.
-    destruct (ch =? 40)%N; [subst t; rewrite (Hr f) by lia; reflexivity|].
-    destruct (ch =? 41)%N; [subst t; rewrite (Hr f) by lia; reflexivity|].
-    destruct Ht as (o & -> & ->). rewrite (Hr f) by lia. reflexivity.
+    cbn [lex_loop]. rewrite H1, H2. cbn [length] in Hf. unfold char_token in Ht.
+    destruct (ch =? 960)%N; [injection Ht as <-; rewrite (Hr f) by lia; reflexivity|].
+    destruct (ch =? 964)%N; [injection Ht as <-; rewrite (Hr f) by lia; reflexivity|].
+    destruct (ch =? 981)%N; [injection Ht as <-; rewrite (Hr f) by lia; reflexivity|].
+    destruct (ch =? 40)%N; [injection Ht as <-; rewrite (Hr f) by lia; reflexivity|].
+    destruct (ch =? 41)%N; [injection Ht as <-; rewrite (Hr f) by lia; reflexivity|].
+    destruct (oper_of_char ch); [|discriminate]. injection Ht as <-. rewrite (Hr f) by lia. reflexivity.
   Qed.
 
   Lemma lexes_oper o rest r : Lexes rest r -> Lexes (oper_str o ++ rest) (TOp o :: r).
+  Proof. intros Hr. destruct o; cbn [oper_str app]; apply lexes_char; try reflexivity; exact Hr. Qed.
+
+  Lemma lexes_cnst c rest r : boundary rest -> Lexes rest r -> Lexes (cnst_str c ++ rest) (TConst c :: r).
   Proof.
-    intros Hr. destruct o; cbn [oper_str app]; apply lexes_char; try reflexivity; try exact Hr;
-      cbn; eexists; split; reflexivity.
+    intros Hb Hr. destruct c; cbn [cnst_str app]; try (apply lexes_char; try reflexivity; exact Hr).
+    apply (lexes_e rest r Hb Hr).
   Qed.
 
   Lemma boundary_oper o rest : boundary (oper_str o ++ rest).
   Proof. destruct o; reflexivity. Qed.
 
-  Lemma lexes_operand : forall e, operand e = true ->
-    forall rest r, boundary rest -> Lexes rest r -> Lexes (chars e ++ rest) (toks e ++ r).
+  Lemma lexes_wrap p s ts rest r :
+    (forall rest' r', boundary rest' -> Lexes rest' r' -> Lexes (s ++ rest') (ts ++ r')) ->
+    boundary rest -> Lexes rest r -> Lexes (wrapc p s ++ rest) (wrapt p ts ++ r).
   Proof.
-    induction e as [x|v|c|f i IH|o s IH|o s IH|o l IHl r0 IHr p]; intros H rest r Hb Hr; try discriminate.
-    - apply lexes_var; assumption.
-    - destruct c; try discriminate. apply lexes_e; assumption.
-    - cbn [operand] in H. destruct o; try discriminate. cbn [chars toks].
-      repeat rewrite <- app_assoc. apply (IH H).
-      + reflexivity.
-      + apply (lexes_oper OFac). exact Hr.
-    - cbn [operand] in H. destruct p; [|discriminate].
-      apply andb_prop in H as [H Hr0]. apply andb_prop in H as [Ho Hl].
-      cbn [chars toks wrapc wrapt]. repeat rewrite <- app_assoc. cbn [app].
-      apply lexes_char; try reflexivity.
-      apply (IHl Hl); [apply boundary_oper|].
-      apply lexes_oper.
-      apply (IHr Hr0); [reflexivity|].
-      apply lexes_char; try reflexivity. exact Hr.
+    intros H Hb Hr. destruct p; cbn [wrapc wrapt]; [|apply H; assumption].
+    repeat rewrite <- app_assoc. cbn [app].
+    apply lexes_char; try reflexivity.
+    apply H; [reflexivity|]. apply lexes_char; try reflexivity. exact Hr.
   Qed.
 
-  Lemma lexes_top o l r : operand l = true -> operand r = true ->
+  Lemma lexes_tree : forall e m, ok m e = true ->
+    forall rest r, boundary rest -> Lexes rest r -> Lexes (chars e ++ rest) (toks e ++ r).
+  Proof.
+    induction e as [x|v|c|f i IH|o s IH|o s IH|o l IHl r0 IHr p]; intros m H rest r Hb Hr; try discriminate.
+    - apply lexes_var; assumption.
+    - apply lexes_cnst; assumption.
+    - cbn [ok] in H. destruct o; try discriminate.
+      assert (Hs : ok MSigned s = true) by (destruct m; try discriminate; exact H).
+      cbn [chars toks]. rewrite <- app_assoc. cbn [app]. apply (lexes_oper OSub). apply (IH _ Hs); assumption.
+    - cbn [ok] in H. destruct o; try discriminate. cbn [chars toks].
+      repeat rewrite <- app_assoc.
+      apply lexes_wrap; [intros; apply (IH _ H); assumption|reflexivity|].
+      apply (lexes_oper OFac). exact Hr.
+    - cbn [ok] in H. destruct p; [|discriminate].
+      apply andb_prop in H as [H Hr0]. apply andb_prop in H as [Ho Hl].
+      cbn [chars toks]. apply lexes_wrap; [|assumption|assumption].
+      intros rest' r' Hb' Hr'. repeat rewrite <- app_assoc.
+      apply lexes_wrap; [intros; apply (IHl _ Hl); assumption|apply boundary_oper|].
+      apply lexes_oper. apply (IHr _ Hr0); assumption.
+  Qed.
+
+  Lemma lexes_top o l r :
+    ok (if is_caret o then MParen else MOperand) l = true -> ok MSigned r = true ->
     Lexes (chars (EBin o l r false)) (toks (EBin o l r false)).
   Proof.
     intros Hl Hr. cbn [chars toks wrapc wrapt].
     rewrite <- (app_nil_r (chars r)), <- (app_nil_r (toks r)).
     repeat rewrite <- app_assoc.
-    apply (lexes_operand l Hl); [apply boundary_oper|].
-    apply lexes_oper. rewrite !app_nil_r.
-    rewrite <- (app_nil_r (chars r)), <- (app_nil_r (toks r)).
-    apply (lexes_operand r Hr); [exact I|apply lexes_nil].
+    apply lexes_wrap; [intros; apply (lexes_tree _ _ Hl); assumption|apply boundary_oper|].
+    apply lexes_oper.
+    apply (lexes_tree r _ Hr); [exact I|apply lexes_nil].
   Qed.
 
   (* ---- implied_mul inserts nothing ------------------------------------------------------------------ *)
@@ -221,32 +273,45 @@ Section Display.
     intros Hq H. cbn [implied_mul]. destruct rest as [|b r]; [reflexivity|]. rewrite (H b Hq). reflexivity.
   Qed.
 
-  Lemma im_operand : forall e, operand e = true ->
+  Lemma im_wrap p (ts rest : list tok) :
+    (forall rest', quiet rest' -> implied_mul (ts ++ rest') = ts ++ implied_mul rest') ->
+    quiet rest -> implied_mul (wrapt p ts ++ rest) = wrapt p ts ++ implied_mul rest.
+  Proof.
+    intros H Hq. destruct p; cbn [wrapt]; [|apply H; exact Hq].
+    repeat rewrite <- app_assoc. cbn [app]. rewrite im_inert by reflexivity.
+    rewrite H by reflexivity. rewrite im_inert by reflexivity. reflexivity.
+  Qed.
+
+  Lemma im_tree : forall e m, ok m e = true ->
     forall rest, quiet rest -> implied_mul (toks e ++ rest) = toks e ++ implied_mul rest.
   Proof.
-    induction e as [x|v|c|f i IH|o s IH|o s IH|o l IHl r0 IHr p]; intros H rest Hq; try discriminate.
+    induction e as [x|v|c|f i IH|o s IH|o s IH|o l IHl r0 IHr p]; intros m H rest Hq; try discriminate.
     - cbn [toks app]. apply im_atom; [exact Hq|]. intros b Hb. cbn. exact Hb.
     - cbn [toks app]. apply im_atom; [exact Hq|]. intros b Hb. cbn. exact Hb.
-    - cbn [operand] in H. destruct o; try discriminate. cbn [toks]. repeat rewrite <- app_assoc.
-      rewrite (IH H); [|reflexivity]. cbn [app]. rewrite im_inert by reflexivity. reflexivity.
-    - cbn [operand] in H. destruct p; [|discriminate].
+    - cbn [ok] in H. destruct o; try discriminate.
+      assert (Hs : ok MSigned s = true) by (destruct m; try discriminate; exact H).
+      cbn [toks app]. rewrite im_inert by reflexivity. rewrite (IH _ Hs _ Hq). reflexivity.
+    - cbn [ok] in H. destruct o; try discriminate. cbn [toks]. repeat rewrite <- app_assoc.
+      rewrite im_wrap; [|intros; apply (IH _ H); assumption|reflexivity].
+      cbn [app]. rewrite im_inert by reflexivity. reflexivity.
+    - cbn [ok] in H. destruct p; [|discriminate].
       apply andb_prop in H as [H Hr0]. apply andb_prop in H as [Ho Hl].
-      cbn [toks wrapt]. repeat rewrite <- app_assoc. cbn [app].
-      rewrite im_inert by reflexivity.
-      rewrite (IHl Hl); [|reflexivity]. rewrite im_inert by reflexivity.
-      rewrite (IHr Hr0); [|reflexivity]. rewrite im_inert by reflexivity. reflexivity.
+      cbn [toks]. apply im_wrap; [|exact Hq].
+      intros rest' Hq'. repeat rewrite <- app_assoc.
+      rewrite im_wrap; [|intros; apply (IHl _ Hl); assumption|reflexivity].
+      cbn [app]. rewrite im_inert by reflexivity. rewrite (IHr _ Hr0 _ Hq'). reflexivity.
   Qed.
 
   (* ---- the parser on the tokens ------------------------------------------------------------------------ *)
-  Definition prefix_then_fac (f : nat) (ts : list tok) : res (tree * list tok) :=
-    let* (l, r) := prefix_part f ts in Ok (strip_fac l r).
+  Definition prefix_then_fac (f : nat) (ts : list tok) (bp : nat) : res (tree * list tok) :=
+    let* (l, r) := prefix_part f ts bp in Ok (strip_fac l r).
 
   Lemma parse_expr_unfold2 f ts bp :
     parse_expr (S f) ts bp =
-    (let* (l, r) := prefix_then_fac f ts in bin_loop (parse_expr f) f l r bp).
+    (let* (l, r) := prefix_then_fac f ts bp in bin_loop (parse_expr f) f l r bp).
   Proof.
     rewrite parse_expr_unfold. unfold prefix_then_fac.
-    destruct (prefix_part f ts) as [[l r]|e|w]; cbn [bind]; [|reflexivity|reflexivity].
+    destruct (prefix_part f ts bp) as [[l r]|e|w]; cbn [bind]; [|reflexivity|reflexivity].
     destruct (strip_fac l r). reflexivity.
   Qed.
 
@@ -259,16 +324,38 @@ Section Display.
   Lemma bin_loop_closed rec n (e : tree) rest bp : closed rest -> bin_loop rec (S n) e rest bp = Ok (e, rest).
   Proof. destruct rest as [|[| |o| | | |] r]; cbn; try contradiction; reflexivity. Qed.
 
-  Lemma length_app_lt {A} (a b : list A) n : length (a ++ b) <= n -> length b <= n.
-  Proof. rewrite app_length. lia. Qed.
+  (* a self-delimiting phrase: atom, factorial, parenthesised group *)
+  Definition Phrase (ts : list tok) (e : tree) : Prop :=
+    forall f rest bp, length (ts ++ rest) <= f -> prefix_then_fac f (ts ++ rest) bp = Ok (strip_fac e rest).
+  (* a complete operand, followed by the end of its group *)
+  Definition Whole (e : tree) : Prop :=
+    forall f rest bp, closed rest -> length (toks e ++ rest) < f -> parse_expr f (toks e ++ rest) bp = Ok (e, rest).
 
-  (* a binary operation between two operands, given that operands parse *)
-  Lemma parse_top f o l r rest bp :
-    (forall f' rest', length (toks l ++ rest') <= f' -> prefix_then_fac f' (toks l ++ rest') = Ok (strip_fac l rest')) ->
-    (forall f' rest', length (toks r ++ rest') <= f' -> prefix_then_fac f' (toks r ++ rest') = Ok (strip_fac r rest')) ->
+  Lemma whole_of_phrase e : toks e <> [] -> Phrase (toks e) e -> Whole e.
+  Proof.
+    intros Hne HP f rest bp Hc Hf. destruct f as [|f]; [lia|]. rewrite parse_expr_unfold2.
+    rewrite HP by lia. cbn [bind]. rewrite (strip_fac_closed _ _ Hc).
+    destruct f as [|f]; [exfalso; destruct (toks e); [contradiction|cbn in Hf; lia]|].
+    apply bin_loop_closed. exact Hc.
+  Qed.
+
+  Lemma phrase_of_whole e : Whole e -> Phrase ([TLParen] ++ toks e ++ [TRParen]) e -> True.
+  Proof. trivial. Qed.
+
+  (* a parenthesised complete operand without paren flag of its own is a phrase *)
+  Lemma phrase_paren e : Whole e -> set_paren e = e -> Phrase ([TLParen] ++ toks e ++ [TRParen]) e.
+  Proof.
+    intros HW Hsp f rest bp Hf. repeat rewrite <- app_assoc in *. cbn [app] in *.
+    unfold prefix_then_fac. cbn [prefix_part]. cbn [length] in Hf.
+    rewrite (HW f (TRParen :: rest) 0 I) by lia. cbn [bind]. rewrite Hsp. reflexivity.
+  Qed.
+
+  (* a binary operation between a phrase and a complete operand *)
+  Lemma parse_top f o l r lts rest bp :
+    Phrase lts l -> Whole r ->
     binop_ok o = true -> closed rest -> bp <= binding_pow o ->
-    length (toks l ++ TOp o :: toks r ++ rest) < f -> toks r <> [] ->
-    parse_expr f (toks l ++ TOp o :: toks r ++ rest) bp = Ok (EBin o l r false, rest).
+    length (lts ++ TOp o :: toks r ++ rest) < f -> toks r <> [] ->
+    parse_expr f (lts ++ TOp o :: toks r ++ rest) bp = Ok (EBin o l r false, rest).
   Proof.
     intros Pl Pr Ho Hc Hbp Hf Hne.
     destruct f as [|f]; [lia|]. rewrite parse_expr_unfold2.
@@ -281,63 +368,95 @@ Section Display.
     replace (binding_pow o <? bp)%nat with false by (symmetry; apply Nat.ltb_ge; exact Hbp).
     assert (Eo : (if oper_eqb o OCDot then OMul else o) = o) by (destruct o; try discriminate; reflexivity).
     rewrite Eo.
-    assert (Er : parse_expr (S f) (toks r ++ rest) (binding_pow o + 1) = Ok (r, rest)).
-    { rewrite parse_expr_unfold2. rewrite Pr by lia. cbn [bind]. rewrite (strip_fac_closed _ _ Hc).
-      destruct f as [|f].
-      { exfalso. destruct (toks r) as [|t tr]; [contradiction|]. cbn [length app] in Hf. lia. }
-      apply bin_loop_closed. exact Hc. }
-    rewrite Er. cbn [bind].
+    rewrite (Pr (S f) rest (binding_pow o + 1) Hc) by lia. cbn [bind].
     destruct f as [|f].
     { exfalso. destruct (toks r) as [|t tr]; [contradiction|]. cbn [length app] in Hf. lia. }
     apply bin_loop_closed. exact Hc.
   Qed.
 
-  Lemma toks_nonempty e : operand e = true -> toks e <> [].
+  Lemma toks_nonempty m e : ok m e = true -> toks e <> [].
   Proof.
     destruct e as [x|v|c|f i|o s|o s|o l r p]; cbn; try discriminate.
-    - intros _ H. destruct (toks s); discriminate.
+    - intros _ H. destruct (wrapt (is_pre s) (toks s)); discriminate.
     - destruct p; [|discriminate]. discriminate.
   Qed.
 
-  Lemma parse_operand : forall e, operand e = true ->
-    forall f rest, length (toks e ++ rest) <= f ->
-      prefix_then_fac f (toks e ++ rest) = Ok (strip_fac e rest).
+  Lemma set_paren_pre o (v : tree) : set_paren (EPre o v) = EPre o v.
+  Proof. reflexivity. Qed.
+
+  (* what each position gives *)
+  Lemma parse_tree : forall e,
+    (ok MOperand e = true -> Phrase (toks e) e) /\
+    (ok MSigned e = true -> Whole e) /\
+    (ok MParen e = true -> Phrase (wrapt (is_pre e) (toks e)) e).
   Proof.
-    induction e as [x|v|c|f0 i IH|o s IH|o s IH|o l IHl r IHr p]; intros H f rest Hf; try discriminate.
-    - reflexivity.
-    - reflexivity.
-    - cbn [operand] in H. destruct o; try discriminate. cbn [toks] in *. rewrite <- app_assoc in *.
-      rewrite (IH H) by exact Hf. reflexivity.
-    - cbn [operand] in H. destruct p; [|discriminate].
-      apply andb_prop in H as [H Hr0]. apply andb_prop in H as [Ho Hl].
-      cbn [toks wrapt] in *. repeat rewrite <- app_assoc in *. cbn [app] in *.
-      unfold prefix_then_fac. cbn [prefix_part].
-      cbn [length] in Hf.
-      rewrite (parse_top f o l r (TRParen :: rest) 0 (IHl Hl) (IHr Hr0) Ho I ltac:(lia)).
-      + reflexivity.
-      + lia.
-      + apply toks_nonempty. exact Hr0.
+    induction e as [x|v|c|f0 i IH|o s IH|o s IH|o l IHl r IHr p].
+    - split; [discriminate|split; discriminate].
+    - assert (HP : Phrase (toks (EVar v)) (EVar v)) by (intros f rest bp _; reflexivity).
+      split; [intros _; exact HP|split; [intros _; apply whole_of_phrase; [discriminate|exact HP]|intros _; exact HP]].
+    - assert (HP : Phrase (toks (EConst c)) (EConst c)) by (intros f rest bp _; reflexivity).
+      split; [intros _; exact HP|split; [intros _; apply whole_of_phrase; [discriminate|exact HP]|intros _; exact HP]].
+    - split; [discriminate|split; discriminate].
+    - (* prefix minus *)
+      destruct IH as (_ & IHs & _).
+      assert (HW : ok MSigned s = true -> o = OSub -> Whole (EPre o s)).
+      { intros Hs -> f rest bp Hc Hf. cbn [toks app] in *. destruct f as [|f]; [cbn in Hf; lia|].
+        rewrite parse_expr_unfold2. unfold prefix_then_fac. cbn [prefix_part oper_eqb]. cbn [length] in Hf.
+        rewrite (IHs Hs f rest _ Hc) by lia. cbn [bind]. rewrite (strip_fac_closed _ _ Hc).
+        destruct f as [|f]; [pose proof (toks_nonempty _ _ Hs); destruct (toks s); [contradiction|cbn in Hf; lia]|].
+        apply bin_loop_closed. exact Hc. }
+      split; [cbn [ok]; destruct o; discriminate|]. split.
+      + cbn [ok]. destruct o; try discriminate. intros Hs. apply HW; [exact Hs|reflexivity].
+      + cbn [ok]. destruct o; try discriminate. intros Hs. cbn [is_pre wrapt].
+        apply phrase_paren; [apply HW; [exact Hs|reflexivity]|reflexivity].
+    - (* factorial *)
+      destruct IH as (_ & _ & IHp).
+      assert (HP : ok MParen s = true -> o = OFac -> Phrase (toks (EPost o s)) (EPost o s)).
+      { intros Hs -> f rest bp Hf. cbn [toks] in *. rewrite <- app_assoc in *.
+        rewrite (IHp Hs) by exact Hf. reflexivity. }
+      cbn [ok is_pre wrapt]. destruct o; try (split; [discriminate|split; discriminate]).
+      split; [|split]; intros Hs.
+      + apply HP; [exact Hs|reflexivity].
+      + apply whole_of_phrase; [apply (toks_nonempty MSigned); exact Hs|apply HP; [exact Hs|reflexivity]].
+      + apply HP; [exact Hs|reflexivity].
+    - (* parenthesised binary operation *)
+      destruct IHl as (IHl1 & _ & IHl3). destruct IHr as (_ & IHr2 & _).
+      assert (HP : ok MOperand (EBin o l r p) = true -> Phrase (toks (EBin o l r p)) (EBin o l r p)).
+      { cbn [ok]. destruct p; [|discriminate]. intros H.
+        apply andb_prop in H as [H Hr0]. apply andb_prop in H as [Ho Hl].
+        intros f rest bp Hf. cbn [toks wrapt] in *. repeat rewrite <- app_assoc in *. cbn [app] in *.
+        unfold prefix_then_fac. cbn [prefix_part]. cbn [length] in Hf.
+        assert (HL : Phrase (wrapt (is_caret o && is_pre l) (toks l)) l).
+        { destruct (is_caret o); cbn [andb]; [apply IHl3; exact Hl|apply IHl1; exact Hl]. }
+        rewrite (parse_top f o l r _ (TRParen :: rest) 0 HL (IHr2 Hr0) Ho I ltac:(lia)).
+        - reflexivity.
+        - lia.
+        - apply (toks_nonempty _ _ Hr0). }
+      split; [exact HP|]. split.
+      + intros H. apply whole_of_phrase; [apply (toks_nonempty _ _ H)|apply HP; exact H].
+      + cbn [is_pre wrapt]. exact HP.
   Qed.
 
   (* ---- no number: fold changes nothing -------------------------------------------------------------------- *)
-  Lemma operand_is_num c e : operand e = true -> is_num c e = false.
+  Lemma ok_is_num m c e : ok m e = true -> is_num c e = false.
+  Proof. destruct e; cbn; try discriminate; reflexivity. Qed.
+  Lemma ok_is_number m e : ok m e = true -> is_number e = false.
   Proof. destruct e; cbn; try discriminate; reflexivity. Qed.
 
-  Lemma foldS_operand : forall e, operand e = true -> foldS e = e.
+  Lemma foldS_bin o l r p m1 m2 : ok m1 l = true -> ok m2 r = true -> foldS l = l -> foldS r = r ->
+    foldS (EBin o l r p) = EBin o l r p.
   Proof.
-    induction e as [x|v|c|f0 i IH|o s IH|o s IH|o l IHl r IHr p]; intros H; try reflexivity.
-    cbn [operand] in H. destruct p; [|discriminate].
-    apply andb_prop in H as [H Hr0]. apply andb_prop in H as [Ho Hl].
-    cbn [foldS]. rewrite (IHl Hl), (IHr Hr0).
-    rewrite !(operand_is_num _ _ Hl), !(operand_is_num _ _ Hr0).
+    intros Hl Hr El Er. cbn [foldS]. rewrite El, Er.
+    rewrite !(ok_is_num _ _ _ Hl), !(ok_is_num _ _ _ Hr).
     destruct o; reflexivity.
   Qed.
 
-  Lemma foldS_top o l r : operand l = true -> operand r = true -> foldS (EBin o l r false) = EBin o l r false.
+  Lemma foldS_ok : forall e m, ok m e = true -> foldS e = e.
   Proof.
-    intros Hl Hr0. cbn [foldS]. rewrite (foldS_operand _ Hl), (foldS_operand _ Hr0).
-    rewrite !(operand_is_num _ _ Hl), !(operand_is_num _ _ Hr0).
-    destruct o; reflexivity.
+    induction e as [x|v|c|f0 i IH|o s IH|o s IH|o l IHl r IHr p]; intros m H; try reflexivity.
+    cbn [ok] in H. destruct p; [|discriminate].
+    apply andb_prop in H as [H Hr0]. apply andb_prop in H as [Ho Hl].
+    apply (foldS_bin _ _ _ _ _ _ Hl Hr0 (IHl _ Hl) (IHr _ Hr0)).
   Qed.
 
   (* ---- round trip --------------------------------------------------------------------------------------------- *)
@@ -347,21 +466,20 @@ Section Display.
   Lemma c19_display_roundtrip_partial_lemma : forall e : tree, dfrag e = true -> reread fmt e = Ok e.
   Proof.
     intros e H. unfold dfrag in H. unfold reread.
-    destruct (operand e) eqn:Hop.
-    - (* an operand *)
+    destruct (ok MSigned e) eqn:Hop.
+    - (* a complete operand *)
       assert (Hlex : lexer (display fmt e) = Ok (toks e)).
       { apply lexer_of_Lexes. change (fun c : N => negb (c =? c_space)%N) with nsp.
-        rewrite (filter_display _ Hop).
+        rewrite (filter_display _ _ Hop).
         rewrite <- (app_nil_r (chars e)), <- (app_nil_r (toks e)).
-        apply (lexes_operand _ Hop); [exact I|apply lexes_nil]. }
+        apply (lexes_tree _ _ Hop); [exact I|apply lexes_nil]. }
       rewrite Hlex. cbn [bind]. unfold parser, parse_unfolded.
-      pose proof (im_operand e Hop [] I) as Him. rewrite !app_nil_r in Him. cbn [implied_mul] in Him.
-      rewrite Him. rewrite parse_expr_unfold2.
-      pose proof (parse_operand e Hop (length (toks e)) [] ltac:(rewrite app_nil_r; lia)) as Hp.
-      rewrite app_nil_r in Hp. rewrite Hp. cbn [bind strip_fac].
-      destruct (length (toks e)) eqn:El.
-      { exfalso. apply (toks_nonempty e Hop). destruct (toks e); [reflexivity|discriminate]. }
-      cbn [bin_loop bind]. rewrite fold_operations_foldS, (foldS_operand _ Hop). reflexivity.
+      pose proof (im_tree e _ Hop [] I) as Him. rewrite !app_nil_r in Him. cbn [implied_mul] in Him.
+      rewrite Him.
+      destruct (parse_tree e) as (_ & HW & _).
+      pose proof (HW Hop (S (length (toks e))) [] 0 I ltac:(rewrite app_nil_r; lia)) as Hp.
+      rewrite app_nil_r in Hp. rewrite Hp. cbn [bind].
+      rewrite fold_operations_foldS, (foldS_ok _ _ Hop). reflexivity.
     - (* a binary operation at the top *)
       cbn [orb] in H. destruct e as [x|v|c|f0 i|o s|o s|o l r p]; try discriminate.
       destruct p; [discriminate|].
@@ -371,15 +489,22 @@ Section Display.
         rewrite (filter_display_top _ _ _ Hl Hr0). apply lexes_top; assumption. }
       rewrite Hlex. cbn [bind]. unfold parser, parse_unfolded.
       cbn [toks wrapt].
-      assert (Him : implied_mul (toks l ++ [TOp o] ++ toks r) = toks l ++ [TOp o] ++ toks r).
-      { rewrite (im_operand l Hl); [|reflexivity]. cbn [app]. rewrite im_inert by reflexivity.
-        pose proof (im_operand r Hr0 [] I) as Hi. rewrite !app_nil_r in Hi. cbn [implied_mul] in Hi.
+      set (lts := wrapt (is_caret o && is_pre l) (toks l)).
+      assert (Him : implied_mul (lts ++ [TOp o] ++ toks r) = lts ++ [TOp o] ++ toks r).
+      { unfold lts. rewrite im_wrap; [|intros; apply (im_tree _ _ Hl); assumption|reflexivity].
+        cbn [app]. rewrite im_inert by reflexivity.
+        pose proof (im_tree r _ Hr0 [] I) as Hi. rewrite !app_nil_r in Hi. cbn [implied_mul] in Hi.
         rewrite Hi. reflexivity. }
       rewrite Him.
-      pose proof (parse_top (S (length (toks l ++ [TOp o] ++ toks r))) o l r [] 0
-                    (parse_operand l Hl) (parse_operand r Hr0) Ho I ltac:(lia)) as Hp.
+      assert (HL : Phrase lts l).
+      { unfold lts. destruct (parse_tree l) as (P1 & _ & P3).
+        destruct (is_caret o); cbn [andb]; [apply P3; exact Hl|apply P1; exact Hl]. }
+      destruct (parse_tree r) as (_ & HWr & _).
+      pose proof (parse_top (S (length (lts ++ [TOp o] ++ toks r))) o l r lts [] 0
+                    HL (HWr Hr0) Ho I ltac:(lia)) as Hp.
       rewrite !app_nil_r in Hp. cbn [app] in Hp |- *.
-      rewrite Hp; [|lia|apply toks_nonempty; exact Hr0].
-      cbn [bind]. rewrite fold_operations_foldS, (foldS_top _ _ _ Hl Hr0). reflexivity.
+      rewrite Hp; [|lia|apply (toks_nonempty _ _ Hr0)].
+      cbn [bind]. rewrite fold_operations_foldS.
+      rewrite (foldS_bin _ _ _ _ _ _ Hl Hr0 (foldS_ok _ _ Hl) (foldS_ok _ _ Hr0)). reflexivity.
   Qed.
 End Display.
